@@ -51,7 +51,7 @@ func (c *compiler) ProcessForInStat(s ast.ForInStat) {
 	closeReg := initRegs[3]
 
 	c.PushContext()
-	c.PushCloseAction(closeReg) // Now closeReg is no longer needed
+	c.PushCloseAction(closeReg, getLine(s)) // Now closeReg is no longer needed
 	c.DeclareLocal(loopFRegName, fReg)
 	c.DeclareLocal(loopSRegName, sReg)
 	c.DeclareLocal(loopVarRegName, varReg)
@@ -242,7 +242,7 @@ func (c *compiler) ProcessLocalStat(s ast.LocalStat) {
 			c.MarkConstantReg(reg)
 		case ast.CloseAttrib:
 			c.MarkConstantReg(reg)
-			c.PushCloseAction(reg)
+			c.PushCloseAction(reg, getLine(s.NameAttribs[i].Name))
 		default:
 			panic(compilerBug{})
 		}
